@@ -7,7 +7,9 @@ T2 == << <<"cfg">>, <<"key">>, <<"new">>, <<"file", "a">>, <<"file", "b">>, <<"a
 T3 == << <<"cfg">>, <<"key">>, <<"level">>, <<"new">>, <<"file", "">>, <<"append", "", 200>>, <<"close", "">>, <<"file", "uni">>,
          <<"close", "uni">>, <<"end">> >>
 T4 == << <<"cfg">>, <<"key">>, <<"new">>, <<"end">>, <<"renew">> >>
-AllTemplates == <<T1, T2, T3, T4>>
-Replay == (phase = "done") => PrintT(<<"REPLAY", ToJson([tpl |-> tpl, calls |-> Calls, fault |-> fault, sched |-> sched,
+T5 == << <<"cfg">>, <<"key">>, <<"new">>, <<"file", "a">>, <<"append", "a", 40>>, <<"close", "a">>, <<"file", "b">>, <<"file", "c">>,
+         <<"append", "c", 9>>, <<"append", "b", 33>>, <<"close", "b">>, <<"append", "c", 50>>, <<"close", "c">>, <<"end">> >>
+AllTemplates == <<T1, T2, T3, T4, T5>>
+Replay == (phase = "done") => PrintT(<<"REPLAY", ToJson([tpl |-> tpl, calls |-> Calls, fault |-> fault, sched |-> sched, decline |-> decline,
                                                           expect |-> expect, complete |-> ArchiveComplete])>>)
 =============================================================================
